@@ -129,6 +129,7 @@ class _Names:
             value (the active delimiter), one to 0 and to a computed value (its indentation); or None."""
             writes: dict = {}
             per_fn: dict = {}
+            others: dict = {}
             for fi in cls.all_methods():
                 selfname = fi.params()[0] if fi.params() else None
                 for n in _walk(fi.node):
@@ -146,8 +147,17 @@ class _Names:
                                 kind = "zero"
                             writes.setdefault(t.attr, set()).add(kind)
                             per_fn.setdefault(fi.name, set()).add(t.attr)
+                            if kind == "other":
+                                others.setdefault(t.attr, []).append(v)
             act = [a for a, ks in writes.items() if "none" in ks and "other" in ks and "zero" not in ks]
             ind = [a for a, ks in writes.items() if "zero" in ks and "other" in ks and "none" not in ks]
+            if len(act) > 1 and not ind:
+                # "no doc string" is None for both: the indentation is the one given a line's attribute (``token.line.indent``),
+                # the delimiter the one given a name or a string
+                from_line = [a for a in act if any(isinstance(v_, ast.Attribute) and isinstance(v_.value, ast.Attribute) and v_.value.attr == "line" for v_ in others.get(a, []))]
+                named = [a for a in act if a not in from_line and any(isinstance(v_, (ast.Name, ast.Constant)) for v_ in others.get(a, []))]
+                if len(from_line) == 1 and named:
+                    ind, act = from_line, named
             if len(act) != 1:
                 act = [a for a, ks in writes.items() if "none" in ks and "zero" not in ks] if not act else act
             if len(ind) != 1:
@@ -464,6 +474,20 @@ class _Names:
             sink = self.SINK
             uses = self._line_uses()
             r = {}
+
+            def str_const(e, fi):
+                """a string literal, or a name bound at module / class level to one (a named constant)"""
+                if isinstance(e, ast.Constant):
+                    return isinstance(e.value, str)
+                if isinstance(e, ast.Name):
+                    res = facts().resolve_name(fi.module, e.id)
+                    if res and res[0] == "global":
+                        v = res[1].globals.get(res[2])
+                        return isinstance(v, ast.Constant) and isinstance(v.value, str)
+                if isinstance(e, ast.Attribute) and isinstance(e.value, ast.Name) and e.value.id in ("self", "cls") and fi.cls is not None:
+                    ca = fi.cls.find_class_attr(e.attr)
+                    return ca is not None and isinstance(ca[1], ast.Constant) and isinstance(ca[1].value, str)
+                return False
             for fi, member, call in uses:
                 if call is not None:
                     a = call.args
@@ -473,14 +497,14 @@ class _Names:
                         r.setdefault("rest", member)
                     if fi.name == "match_Other" or (len(a) == 1 and isinstance(a[0], ast.Attribute) and a[0].attr == self.DS_INDENT):
                         r.setdefault("text", member)
-                    if len(a) == 1 and isinstance(a[0], ast.Constant) and isinstance(a[0].value, str) and fi.name in ("match_TagLine", "match_TableRow", "match_Comment"):
+                    if len(a) == 1 and str_const(a[0], fi) and fi.name in ("match_TagLine", "match_TableRow", "match_Comment"):
                         r.setdefault("prefix", member)
                 else:
                     if fi.name == sink:
                         r.setdefault("indent", member)
             for fi, member, call in uses:
-                if call is not None and len(call.args) == 1 and isinstance(call.args[0], ast.Name) and member not in (r.get("prefix"), r.get("rest"), r.get("text")) \
-                        and fi.name not in ("match_StepLine",):
+                if call is not None and len(call.args) == 1 and isinstance(call.args[0], ast.Name) and not str_const(call.args[0], fi) \
+                        and member not in (r.get("prefix"), r.get("rest"), r.get("text")) and fi.name not in ("match_StepLine",):
                     r.setdefault("title_prefix", member)
             # items= of the matched-token sink per kind
             cls = facts().cls(MQ)
